@@ -39,7 +39,10 @@ def _run_task(args):
         if task.get("configure"):
             conf = getattr(importlib.import_module(task["module"]), task["configure"])
         if task["kind"] == "contract":
-            out = R.run_contract(inst, timeout_ms, conf)
+            conf_small = None
+            if task.get("configure_small"):
+                conf_small = getattr(importlib.import_module(task["module"]), task["configure_small"])
+            out = R.run_contract(inst, timeout_ms, conf, conf_small)
         elif task["kind"] == "lemma":
             out = R.run_lemma(inst, timeout_ms, conf)
         elif task["kind"] in ("scan", "bounded", "custom"):
@@ -208,7 +211,9 @@ def check(prop, tier, seed):
 
     # --- undecided / errors ---------------------------------------------------------
     for out, r in unknown:
-        lines.append(f"UNDECIDED property={prop} obligation={r['oid']} reason={r.get('detail', '')[:200]}")
+        ss = (out.get("info", {}).get("small_scope") or {}).get("status_of_open", {}).get(r["oid"])
+        lines.append(f"UNDECIDED property={prop} obligation={r['oid']} reason={r.get('detail', '')[:200]}"
+                     + (f" | small scope: {ss}" if ss else ""))
         if exit_code == 0:
             exit_code = 2
     for msg in used_missing:
